@@ -306,6 +306,34 @@ def _grid(ctx: Ctx) -> typing.Iterable[typing.Any]:
                 m = _base()
                 m["statements"] = [dict(x) for x in sk[:pos]] + [dict(dct)] + [dict(x) for x in sk[pos:]]
                 yield {"skeleton": m, "edits": [], "grid": "directive-placement"}
+    # --- every kind of attribute at every position of small skeletons around @sealed / @extent (an extent of zero, of a few bytes, given
+    #     as a number; empty sections, constants only, unions, both sides of a service): nothing may follow @extent, anything may follow @sealed
+    kz = {"s": "const", "type": u8, "name": "KZ", "value": ["int", 2]}
+    fz = {"s": "field", "type": u8, "name": "z"}
+    pz = {"s": "field", "type": {"base": "void", "width": 8, "cast": None, "array": None}, "name": ""}
+    ext0 = {"s": "dir", "name": "extent", "expr": ["rel", 0]}
+    ext8 = {"s": "dir", "name": "extent", "expr": ["rel", 8]}
+    skeletons2 = [
+        [ext0],
+        [ka, ext0],
+        [{"s": "dir", "name": "extent", "expr": ["int", 64]}],
+        [{"s": "dir", "name": "extent", "expr": ["int", 0]}],
+        [fa, ext0],
+        [fa, ext8],
+        [_sealed()],
+        [fa, _sealed()],
+        [{"s": "dir", "name": "union", "expr": None}, fa, fb, ext0],
+        [_sealed(), {"s": "marker"}, ext0],
+        [ext0, {"s": "marker"}, _sealed()],
+        [fa, ext8, {"s": "marker"}, ka, ext0],
+        [{"s": "dir", "name": "deprecated", "expr": None}, ext0],
+    ]
+    for sk in skeletons2:
+        for attr in (kz, fz, pz):
+            for pos in range(len(sk) + 1):
+                m = _base()
+                m["statements"] = [dict(x) for x in sk[:pos]] + [dict(attr)] + [dict(x) for x in sk[pos:]]
+                yield {"skeleton": m, "edits": [], "grid": "attribute-placement"}
     # --- extents relative to the longest representation
     bodies = [[], [{"s": "field", "type": u8, "name": "a"}], [{"s": "field", "type": dict(u8, width=3), "name": "a"}],
               [{"s": "field", "type": dict(u8, array=["le", 3]), "name": "a"}, {"s": "field", "type": {"base": "dep", "dep": "DepV", "cast": None, "array": None}, "name": "b"}]]
